@@ -300,7 +300,7 @@ type Graph struct {
 }
 
 var (
-	reNode = regexp.MustCompile(`^(-?\d+) \[label="(.*)"(,style = filled)?\]`)
+	reNode = regexp.MustCompile(`^(-?\d+) \[label="((?:[^"\\]|\\.)*)"(.*)\]`)
 	reEdge = regexp.MustCompile(`^(-?\d+) -> (-?\d+) \[label="([^"]*)"`)
 )
 
@@ -331,7 +331,7 @@ func ParseDot(path string) (*Graph, error) {
 		if m := reNode.FindStringSubmatch(l); m != nil {
 			i := id(m[1])
 			g.Labels[i] = unescapeDot(m[2])
-			if m[3] != "" {
+			if strings.Contains(m[3], "style = filled") {
 				g.Init = append(g.Init, i)
 			}
 		}
